@@ -417,6 +417,26 @@ class Check(object):
     def describe(self, case):
         return case
 
+    def shrink_candidates(self, case):
+        """Smaller variants of a failing case (default: shorten list-valued fields of dict cases)."""
+        if not isinstance(case, dict):
+            return
+        for k, v in case.items():
+            if isinstance(v, list) and len(v) > 0:
+                n = len(v)
+                cuts = []
+                if n > 1:
+                    cuts += [v[:n // 2], v[n // 2:]]
+                if n <= 40:
+                    cuts += [v[:i] + v[i + 1:] for i in range(n)]
+                else:
+                    step = max(1, n // 8)
+                    cuts += [v[:i] + v[i + step:] for i in range(0, n, step)]
+                for c in cuts:
+                    d = dict(case)
+                    d[k] = c
+                    yield d
+
 
 def sha(obj):
     return hashlib.sha1(json.dumps(obj, sort_keys=True, default=str).encode()).hexdigest()[:12]
@@ -428,6 +448,32 @@ def write_replay(prop, payload):
     with open(path, 'w') as f:
         json.dump(payload, f, indent=1, default=str)
     return path
+
+
+def shrink(chk, case, out, why, budget_s=20):
+    """Greedy delta debugging of a failing case with the property oracle (time-boxed)."""
+    t0 = time.time()
+    best = (case, out, why)
+    progress = True
+    while progress and time.time() - t0 < budget_s:
+        progress = False
+        try:
+            cands = list(chk.shrink_candidates(best[0]))
+        except Exception:
+            break
+        for c in cands:
+            if time.time() - t0 > budget_s:
+                break
+            try:
+                o = chk.impl(c)
+                w = chk.oracle(c, o)
+            except Exception:
+                continue
+            if w:
+                best = (c, o, w)
+                progress = True
+                break
+    return best
 
 
 def run_check(chk):
@@ -595,6 +641,11 @@ def run_check(chk):
     if unlisted:
         seen = set()
         for why, c, o in unlisted[:5]:
+            if o is not None:
+                try:
+                    c, o, why = shrink(chk, c, o, why, budget_s=8)
+                except Exception as e:
+                    notes.append('shrink failed: %s' % e)
             payload = {'property': prop, 'kind': 'failing-input', 'why': why, 'input': chk.describe(c),
                        'observed': o, 'how_to_replay': './check %s --replay <this file>' % prop}
             key = sha(payload)
